@@ -219,6 +219,30 @@ pub fn relational_cfgs() -> Vec<Cfg> {
     }
     v.push(Cfg::Fb { kind: FbKind::Payload, sender: 1, media: 2, fci: Fci::Rpsi { pt: 0, bits: vec![0x5a; 254], overrun: 0 }, padding: 8 });
     v.push(Cfg::Fb { kind: FbKind::Payload, sender: 1, media: 2, fci: Fci::Rpsi { pt: 64, bits: vec![0xa5; 510], overrun: 3 }, padding: 4 });
+    // ---- self-similar payloads: a payload that is itself the image of a well-framed packet of the same type
+    //      (as produced by an application that tunnels or re-wraps packets)
+    for (pt, count) in [(199u8, 0u8), (199, 5), (242, 31), (207, 1)] {
+        for words in [1usize, 2, 3, 8] {
+            let mut inner = vec![0x80 | count, pt, 0, (words - 1) as u8];
+            inner.extend((0..4 * (words - 1)).map(|i| (i as u8).wrapping_mul(29) ^ 0x5c));
+            v.push(Cfg::Unknown { pt, count, data: inner.clone(), padding: 0 });
+            v.push(Cfg::Unknown { pt, count: 0, data: inner.clone(), padding: 4 });
+            // the same with the padding bit set inside the payload's look-alike header
+            let mut padded = inner.clone();
+            padded[0] |= 0x20;
+            v.push(Cfg::Unknown { pt, count, data: padded, padding: 0 });
+            if pt == 207 || pt == 242 || pt == 199 {
+                v.push(Cfg::Custom { pt, min: 4, count, body: inner.clone(), padding: 0 });
+            }
+        }
+    }
+    {
+        let inner_app = [0x83u8, 204, 0, 3, 0, 0, 0, 9, b'n', b'a', b'm', b'e', 1, 2, 3, 4];
+        v.push(Cfg::App { ssrc: 9, subtype: 3, name: "name".into(), data: inner_app.to_vec(), padding: 0 });
+        v.push(Cfg::App { ssrc: 9, subtype: 3, name: "name".into(), data: inner_app.to_vec(), padding: 8 });
+        let inner_rpsi = [0x83u8, 206, 0, 3, 0, 0, 0, 1, 0, 0, 0, 2, 0, 96, 0xff, 0xee];
+        v.push(Cfg::Fb { kind: FbKind::Payload, sender: 1, media: 2, fci: Fci::Rpsi { pt: 96, bits: inner_rpsi.to_vec(), overrun: 0 }, padding: 0 });
+    }
     // ---- unknown / third-party packets with zero padding in non-last positions, empty bodies with padding
     v.push(Cfg::Unknown { pt: 199, count: 0, data: vec![], padding: 4 });
     v.push(Cfg::Unknown { pt: 207, count: 31, data: vec![], padding: 252 });
@@ -949,6 +973,14 @@ pub fn floor_c16(ctx: &Ctx) -> Vec<(String, bool)> {
 // ================================================================== C17
 
 static UNINIT: AtomicBool = AtomicBool::new(false);
+fn cfg_has_fir(c: &Cfg) -> bool {
+    match c {
+        Cfg::Fb { fci: Fci::Fir(l), .. } => l.len() > 1,
+        Cfg::Compound(m) => m.iter().any(cfg_has_fir),
+        _ => false,
+    }
+}
+
 pub fn set_uninit(v: bool) {
     UNINIT.store(v, Ordering::SeqCst);
 }
@@ -1121,6 +1153,29 @@ pub fn check_c17(ctx: &mut Ctx, cfg: &Cfg, how: How) {
                     }
                 }
                 WOut::Panic(_) | WOut::WrongSize { .. } => unreachable!(),
+            }
+            // the same write through the *concrete* builder type with method syntax (what an application that
+            // holds the builder itself calls; an inherent method would shadow the trait's): same result, same
+            // buffer as the trait-object path just judged. FIR entry order is per builder instance: skipped.
+            if !UNINIT.load(std::sync::atomic::Ordering::Relaxed) && !cfg_has_fir(cfg) {
+                let k = l % 3;
+                let mut b = vec![0u8; l];
+                prefill(k, &mut b);
+                if let Some((_, wrote, after)) = crate::drive::concrete_outcome(cfg, how, b) {
+                    if !matches!(wrote, WOut::Panic(_)) && (wrote != outs[k] || after != bufs[k]) {
+                        let d = after.iter().zip(&bufs[k]).position(|(x, y)| x != y);
+                        ctx.violate(
+                            "concrete-type-path",
+                            kind,
+                            if wrote != outs[k] { "result" } else if matches!(wrote, WOut::Ok(_)) { "bytes" } else { "failed-write-leaves-buffer" },
+                            case,
+                            format!("as through the trait object: {} and the same buffer", outs[k].render()),
+                            format!("{} ; first differing byte {d:?}", wrote.render()),
+                        );
+                        return;
+                    }
+                    ctx.class("c17:concrete-type-path-compared");
+                }
             }
         }
         ctx.nontrivial(hash_of(cfg));
